@@ -341,7 +341,7 @@ def validate_trace(workdir, name, module, log_path, invariants=(), timeout=1800,
             events_ok += n
             return events_ok, rejected, total_states
         if "Deadlock reached" in text or "deadlock" in text.lower():
-            ls = re.findall(r"^/\\ l = (\d+)", text, re.M)
+            ls = re.findall(r"^(?:/\\ )?l = (\d+)", text, re.M)
             if not ls:
                 raise ToolError("trace validation: deadlock without a position, see %s" % outp)
             line = int(ls[-1])  # 1-based index of the event that could not be explained
